@@ -105,7 +105,7 @@ pub fn check_val(c: &Val) -> Verdict {
     ensure!(v, eng == w, "C04/write-differs:engineering", "to_engineering_notation and write_engineering_notation differ");
     check_text(&mut v, "engineering", &eng, &m, Repr::ValueOnly);
     // --- plain (only where the text stays small)
-    if scale.abs() <= 20_000 {
+    if scale.abs() <= PLAIN_MAX_SCALE {
         let plain = x.to_plain_string();
         let mut w = String::new();
         x.write_plain_string(&mut w).unwrap();
@@ -116,6 +116,9 @@ pub fn check_val(c: &Val) -> Verdict {
     }
     v
 }
+
+/// plain notation is written out (and parsed back) for scales up to this size: beyond the 16-bit and 17-bit boundaries
+const PLAIN_MAX_SCALE: i128 = 140_000;
 
 // ---------------------------------------------------------------- generators
 
@@ -195,6 +198,19 @@ pub fn run(ctx: &Ctx) {
         |i| Some(Val { d: D::new("0", i as i64 - 2000) }),
         check_val,
     );
+    {
+        // plain notation at scales next to the truncating-cast boundaries 2^8, 2^15, 2^16, 2^17 (both signs of the scale)
+        let mut cases = Vec::new();
+        for base in [255i64, 32_767, 65_535, 131_071] {
+            for d in -2..=3i64 {
+                for (k, digits) in ["7", "-123456789", "0", "1000", "99999999999999999999"].iter().enumerate() {
+                    let s = base + d;
+                    cases.push(Val { d: D::new(digits.to_string(), if (k as i64 + d).rem_euclid(3) == 0 { -s } else { s }) });
+                }
+            }
+        }
+        ctx.listed("boundary-scales", "val", "scales +-(2^8, 2^15, 2^16, 2^17) - 3..+3 x 5 digit strings: every rendering incl. plain notation (65 000 to 131 000 characters)", cases, check_val);
+    }
     let max_len = t.pick(600usize, 3000);
     let n = t.pick(150_000u64, 5_000_000);
     ctx.generated("random-values", "val", n, "1..max digits, all shapes, scales in +-80 / +-3000 / +-20000 / +-10^15", move || val_strategy(max_len), check_val);
